@@ -96,7 +96,9 @@ RDist(i, s, a) ==
        ELSE IF ns = s THEN << <<s, i.SPD>> >>
        ELSE IF i.SPN # i.SPD THEN << <<s, i.SPD - i.SPN>>, <<ns, i.SPN>> >>
        ELSE << <<ns, i.SPD>> >>
-RProb(i, s, a, t) == LET d == RDist(i, s, a) IN SumTo([k \in 1..Len(d) |-> IF d[k][1] = t THEN d[k][2] ELSE 0], Len(d))
+\* probability numerator of t in a listed distribution d
+PIn(d, t) == SumTo([k \in 1..Len(d) |-> IF d[k][1] = t THEN d[k][2] ELSE 0], Len(d))
+RProb(i, s, a, t) == PIn(RDist(i, s, a), t)
 RRew(i, s, a, t) == IF s = T \/ t = T THEN 0 ELSE FR(i, Feat(i, t)) + i.SC
 
 \* ------------------------------------------------------------------ instances
@@ -172,7 +174,7 @@ MachineMatchesOracle ==
   \A a \in ActSet :
     LET d == RDist(g, pos, a) IN
     \* both supports lie in {pos, commanded cell, T} + the entries the code lists
-    /\ \A t \in {pos, Plus(pos, a), T} \cup {d[k][1] : k \in 1..Len(d)} : RProb(g, pos, a, t) = OProb(g, pos, a, t)
+    /\ \A t \in {pos, Plus(pos, a), T} \cup {d[k][1] : k \in 1..Len(d)} : PIn(d, t) = OProb(g, pos, a, t)
     /\ \A k \in 1..Len(d) : d[k][2] > 0 => RRew(g, pos, a, d[k][1]) = ORew(g, pos, a, d[k][1])
 \* every distribution is normalised, has no negative entry, and only lists states of the state list
 Normalised ==
@@ -210,14 +212,14 @@ RewardClause ==
 \* on a valued instance the value of the current cell is the best one-step look-ahead
 Look(i, U, c, a) == i.SPN * CellRew(i, Plus(c, a)) + U[Plus(c, a)] + (i.SPD - i.SPN) * CellRew(i, c)
 ValueIsFixpoint ==
-  (Walking /\ Valued(g) /\ pos # T /\ g.W * g.H <= 6) =>
-     LET U == GridValue(g)
-         ok == {a \in ActSet : ~Blocked(g, pos, a) /\ U[Plus(pos, a)] # NOVAL}
-     IN
-     IF IsAbsCell(g, pos) THEN U[pos] = 0
-     ELSE IF U[pos] = NOVAL THEN ok = {}
-     ELSE /\ \E a \in ok : U[pos] = Look(g, U, pos, a)
-          /\ \A a \in ok : U[pos] >= Look(g, U, pos, a)
+  (Walking /\ Valued(g) /\ pos = <<0, 0>> /\ g.W * g.H <= 6) =>      \* once per layout: every cell
+     LET U == GridValue(g) IN
+     \A c \in Cells(g) :
+       LET ok == {a \in ActSet : ~Blocked(g, c, a) /\ U[Plus(c, a)] # NOVAL} IN
+       IF IsAbsCell(g, c) THEN U[c] = 0
+       ELSE IF U[c] = NOVAL THEN ok = {}
+       ELSE /\ \E a \in ok : U[c] = Look(g, U, c, a)
+            /\ \A a \in ok : U[c] >= Look(g, U, c, a)
 \* --- of every step of every walk (action properties)
 \* the agent never enters a wall and never leaves the grid
 NeverEntersWall == [][(Walking /\ pos' # pos) => (pos' = T \/ (InGrid(g, pos') /\ ~IsWall(g, pos')))]_vars
